@@ -173,7 +173,7 @@ def run_shard(shard, tier) -> Stats:
                 want = al.payload("c05s", i % 48, 3)
                 if pl != want:
                     st.violation("session payload differs", {"part": part, "index": i}, want, pl)
-                if prev is not None and c != prev + 1 and not (c == 0 and prev + 1 in (4096, 65536)):
+                if prev is not None and c != prev + 1 and not (c == 0 and prev + 1 in tuple(1 << k for k in range(8, 17))):
                     st.violation(f"session counter step {prev}->{c}", {"part": part, "index": i}, prev + 1, c)
                 prev = c
                 st.ev((part, i), "session-ok", True)
